@@ -49,10 +49,10 @@ TEnd == /\ More /\ Ev.ev = "end"
 \* the hook sees an exception only when it leaves the body of a module: one that a handler of the same body
 \* catches is a silent step
 TFail == /\ More /\ Ev.ev = "fail"
-         /\ (ImportFails \/ UseFails) /\ fail'.kind = Ev.kind
+         /\ (ImportFails \/ UseFails \/ ReflFails) /\ fail'.kind = Ev.kind
          /\ HandlerOf(Stmt, fail'.kind) = 0
          /\ Accept
-TCaughtInBody == /\ (ImportFails \/ UseFails)
+TCaughtInBody == /\ (ImportFails \/ UseFails \/ ReflFails)
                  /\ HandlerOf(Stmt, fail'.kind) # 0
                  /\ i' = i
 TReady == /\ More /\ Ev.ev = "ready"
@@ -61,7 +61,7 @@ TReady == /\ More /\ Ev.ev = "ready"
           /\ DOMAIN Ev.mods = Loaded
           /\ \A m \in Loaded : SameNames(m, Ev.mods[m])
           /\ Accept
-TSilent == /\ (BindImport \/ BindFrom \/ StarImport \/ DefName \/ DelName \/ UseName
+TSilent == /\ (BindImport \/ BindFrom \/ StarImport \/ DefName \/ DelName \/ UseName \/ ReflUse
                \/ Unwind \/ Jump \/ Branch \/ CallF \/ EndCallF)
            /\ i' = i
 TRestart == /\ More /\ Ev.ev = "begin" /\ phase \in {"ready", "failed"}
